@@ -8,7 +8,7 @@ use crypto_bigint::modular::{
     BoxedMontyForm, BoxedMontyParams, ConstMontyForm, ConstMontyParams, MontyForm, MontyParams,
 };
 use crypto_bigint::subtle::{Choice, ConditionallySelectable};
-use crypto_bigint::{impl_modulus, BoxedUint, Monty, MontyMultiplier, Odd, U128, U256, U64};
+use crypto_bigint::{impl_modulus, BoxedUint, Monty, MontyMultiplier, Odd, U128, U192, U256, U64};
 use num_bigint::BigUint;
 use num_traits::{One, Zero};
 use serde_json::json;
@@ -513,6 +513,9 @@ impl_modulus!(M64E, U64, "0000000000000001"); // m = 1
 impl_modulus!(M128A, U128, "ffffffffffffffffffffffffffffffff");
 impl_modulus!(M128B, U128, "0000000000000001000000000000000d"); // 2^64+13
 impl_modulus!(M128C, U128, "00000000000000000000000000000fff"); // 4095
+impl_modulus!(M128D, U128, "00000000000000008000000000000001"); // exactly 64 leading zeros (the clamp boundary of MOD_LEADING_ZEROS)
+impl_modulus!(M128E, U128, "00000000000000004000000000000001"); // 65 leading zeros
+impl_modulus!(M192A, U192, "000000000000000080000000000000000000000000000001"); // 64 leading zeros, 3 limbs
 impl_modulus!(M256A, U256, "ffffffff00000001000000000000000000000000ffffffffffffffffffffffff"); // NIST P-256
 impl_modulus!(M256B, U256, "5555555555555555555555555555555555555555555555555555555555555555"); // ~2^256/3
 
@@ -593,6 +596,9 @@ const_rep!(M64E, 1);
 const_rep!(M128A, 2);
 const_rep!(M128B, 2);
 const_rep!(M128C, 2);
+const_rep!(M128D, 2);
+const_rep!(M128E, 2);
+const_rep!(M192A, 3);
 const_rep!(M256A, 4);
 const_rep!(M256B, 4);
 
@@ -674,6 +680,9 @@ fn main() {
     const_instance!(ctx, M128A, 2, Some(d));
     const_instance!(ctx, M128B, 2, Some(d));
     const_instance!(ctx, M128C, 2, if th { None } else { Some(d) });
+    const_instance!(ctx, M128D, 2, Some(d));
+    const_instance!(ctx, M128E, 2, Some(d));
+    const_instance!(ctx, M192A, 3, Some(d));
     const_instance!(ctx, M256A, 4, Some(d));
     const_instance!(ctx, M256B, 4, Some(d));
     ctx.extra("engine", json!("stateright 0.31 BFS, one checker per (representation, width, modulus) instance; DFS re-run on small instances in thorough tier (unique-state counts must agree)"));
